@@ -3,6 +3,7 @@
 package main
 
 import (
+	"sync"
 	"bufio"
 	"bytes"
 	"context"
@@ -166,7 +167,10 @@ func handle(toks []string) string {
 		fail := parseFail(toks[5])
 		var vs []visitRec
 		i := 0
+		var vmu sync.Mutex // with the massive option the callback is invoked from several workers
 		cb := func(wn *gtree.WalkerNode) error {
+			vmu.Lock()
+			defer vmu.Unlock()
 			vs = append(vs, recVisit(wn))
 			i++
 			if i-1 == fail {
